@@ -520,15 +520,7 @@ impl Scanner {
                 numlit.push(signed);
             }
 
-            self.scan_digits2(
-                numlit.len(),
-                &mut numlit,
-                if radix == 16 {
-                    is_hex_digit
-                } else {
-                    is_decimal_digit
-                },
-            )
+            self.scan_digits2(numlit.len(), &mut numlit, is_decimal_digit)
         }
 
         let exp_part = &numlit[exp_start..];
